@@ -38,11 +38,11 @@ type Violation struct {
 }
 
 type Result struct {
-	Points  int         `json:"points"`
-	Probes  int         `json:"probes"`
-	Kinds   int         `json:"kinds"`
-	Viol    []Violation `json:"viol"`
-	Samples []string    `json:"samples"`
+	Points  int            `json:"points"`
+	Probes  int            `json:"probes"`
+	Kinds   int            `json:"kinds"`
+	Viol    []Violation    `json:"viol"`
+	Samples []string       `json:"samples"`
 	Parts   map[string]int `json:"parts"`
 }
 
